@@ -96,6 +96,13 @@ def clauses (prop : String) (cfg : NetCfg) (seen : List Nat := []) : St → List
           let expect := ((units cfg).zip s.units).flatMap fun (u, us) =>
             if u.kind == .hcu then Hcu.encodeMotion u.da u.sa (us.hcu.getD .stopAll) else []
           [("cycle_reasserts_latest_command", (o.frames.drop setupLen).filter isHcuMotion == expect)]
+        else if prop == "C08" then
+          -- every cycle sends each engine unit exactly the speed-control frame the driver model prescribes for this
+          -- history (one per configured Volvo unit), whether or not the unit is currently heard
+          let isVolvo (f : Frame) : Bool := pgn f.id == Consts.volvoSpeedPgn
+          let expect := ((units cfg).zip s.units).flatMap fun (u, us) =>
+            if u.kind == .d7e then (volvoStep u.sa { us.volvo with now := s.now } .tick).2 else []
+          [("cycle_sends_every_engine_its_frame", o.frames.filter isVolvo == expect)]
         else if prop == "C20" then
           -- every published status carries the canonical name of a CONFIGURED unit (vendor:product:0xSA:0xDA from the
           -- configuration entry, not from whatever driver the factory happened to build)
@@ -176,6 +183,21 @@ def check (prop : String) (inp out : List String) : Verdict :=
         specFail := failing [("configuration_accepted", r == "ok" || !ok),
                              ("encoder_unit_address_supported", r == "ok" || ok)] }
     | _, _ => .bad "new tokens"
+  | ["daemon", cfgTok] =>
+    -- one network of the REAL daemon: `<claims at start-up>|<answer to a SoftwareIdentification request>|<answer to an
+    -- AddressClaimed request>` (each a comma-separated frame list or `-`)
+    match parseCfg? cfgTok, out with
+    | some cfg, [r] =>
+      let sh (fs : List Frame) : String := if fs.isEmpty then "-" else ",".intercalate (fs.map showFrame)
+      let reqFrame (g : Nat) : Frame := request cfg.address 0x10 g
+      let ans (g : Nat) : List Frame := (respond cfg { id := (reqFrame g).id, data := J1939.normalise (reqFrame g).data }).getD []
+      let want := s!"{sh [addressClaimed cfg.address cfg.name]}|{sh (ans Consts.pgnSoftwareIdentification)}|{sh (ans Consts.pgnAddressClaimed)}"
+      let parts := r.splitOn "|"
+      { agree := r == want, model := want,
+        specFail := failing [
+          ("every_configured_network_announces_itself", parts.headD "-" == sh [addressClaimed cfg.address cfg.name]),
+          ("every_configured_network_answers_requests", parts.drop 1 == [sh (ans Consts.pgnSoftwareIdentification), sh (ans Consts.pgnAddressClaimed)])] }
+    | _, _ => .bad "daemon tokens"
   | _ => .bad "authority arity"
 
 end Glonax.Driver.AuthDrv
